@@ -25,6 +25,10 @@ CLAIMED = {
          "Every (type, element type) combination is instantiated; the operator kind (14 kinds incl. binary/compound/unary/negate/scalar-left/scalar-right/==/!=/equalWith*/layout/constructors+setValue+getValue/interop/text) is generated and its histogram reported, every slot of every result compared. A pass means no counter-example in 9e6 (quick) / 1.7e8 (thorough) generated cases.",
          "Integer operands are restricted to the range where the scalar C++ operation is defined (no signed overflow, no division by zero) - outside it the scalar oracle itself is undefined. unsigned char text output is excluded as the statement says. Converting constructors are exercised with one other element type per T.",
          "DESIGN.md section 5 C04"),
+ "C19": ("Hypothesis-generated operation programs (stateful, model-based) interpreted against the ASan-instrumented imath module and pure-Python list / nested-list / dict models; fixed scenario programs for the view-lifetime and read-only classes; ASan as memory-safety oracle",
+         "Six program families (1-D FixedArray over all 48 exported element types; FixedArray2D; FixedMatrix; FixedVArray; String/WstringArray; buffer export and ...FromBuffer) with full-content comparison against the model after every step, derived views (masked references, element references, row views, memoryviews) kept alive while their owners are released in generated order, read-only protection exercised through every derived object. A pass means no divergence and no sanitizer report on the programs explored.",
+         "The module is rebuilt from the working tree with -fsanitize=address and run under python3-vt with libasan preloaded; a dangling view is only visible because of ASan. Views created BEFORE makeReadOnly keep their own writable flag by design and are modelled so (not asserted read-only). 2-D/matrix/varray use forward slices only, as the statement says. Mask assignment is exercised on direct (non-masked) arrays.",
+         "DESIGN.md section 5 C19"),
 }
 PENDING_REASON = "check under construction in this session (harness not yet committed); will be claimed once it passes on the unchanged tree"
 def main():
@@ -37,13 +41,14 @@ def main():
             thorough_cmd="python3 vp/run.py %s --tier thorough" % p,
             evidence_file="/verif/evidence/%s.json" % p,
             replay_cmd_template="python3 vp/run.py %s --replay {path}" % p,
-            engine="vpbt",
+            engine="pvp+hypothesis" if p in ("C19", "C20") else "vpbt",
             level_claimed=dict(category="exploration", text=text, design_ref=ref),
             level_note=note, technique=tech))
     m = dict(version=1,
         setup_cmd="python3 vp/run.py --setup",
         hooks=dict(guard="IMATH_VERIF", enable="no hooks are needed: every property is observable through public API; checks compile /repo's working-tree sources directly", baseline_off_cmd="cmake --build /repo/_build && ctest --test-dir /repo/_build -j8 --timeout 900", source_commits=[], add_only=True),
-        engines=[dict(name="vpbt", path="/verif/vp/vpbt.h", serves_properties=[p for p in ALL if p in CLAIMED], kind_free_text="own choice-sequence property-based testing engine (C++17): class-structured generators, exhaustive enumerations, shortlex shrinking, same decode used as libFuzzer target (clang -fsanitize=fuzzer,address,undefined); driver vp/run.py")],
+        engines=[dict(name="pvp+hypothesis", path="/verif/vp/py/pvp.py", serves_properties=[p for p in ("C19", "C20") if p in CLAIMED], kind_free_text="Hypothesis 6.168 strategies generate JSON programs (operation sequences), interpreted against the ASan-built imath Python module and a Python model; replay files are the programs; driver vp/pydriver.py builds PyImath from the tree (ninja, content-hash driven)"),
+                 dict(name="vpbt", path="/verif/vp/vpbt.h", serves_properties=[p for p in ALL if p in CLAIMED], kind_free_text="own choice-sequence property-based testing engine (C++17): class-structured generators, exhaustive enumerations, shortlex shrinking, same decode used as libFuzzer target (clang -fsanitize=fuzzer,address,undefined); driver vp/run.py")],
         checks=checks,
         notes="All checks rebuild from $VERIF_REPO (default /repo) working tree, content-hash cached under /verif/build. VERIF_SEED and VERIF_TIER honoured.",
         not_applicable=[dict(property_id=p, reason=PENDING_REASON) for p in ALL if p not in CLAIMED])
